@@ -115,7 +115,7 @@ FAULTS = {
     'missing_index': dict(lit=['[1, 2].7'], free=['ls.7', 'idf(ls).2']),
     'unhandled_select': dict(lit=['select ("zz") => {aa = 1, bb = 2}', 'select ("zz") => {\n    aa = 1,\n    bb = 2,\n}', 'select (false) => {true = 1}'],
                              free=['select (sv) => {aa = 1}']),
-    'failed_cast': dict(lit=['int("x")', 'int("12ab")', 'float("1.2.3")'], free=['int(sv)', 'int(idf("q"))']),
+    'failed_cast': dict(lit=['int("x")', 'int("12ab")', 'float("1.2.3")', 'bool("maybe")', 'float("x")', 'bool("2")'], free=['int(sv)', 'int(idf("q"))', 'bool(sv)', 'float(sv)']),
     'fail': dict(lit=['fail "boom"', 'fail "boom @" % (1)', 'fail "a" + "b"'], free=['fail sv']),
     'bad_regex': dict(lit=['"abc" ~ "("', '"abc" !~ "[a"', '"abc" ~ "*a"'], free=['"abc" ~ badre', 'sv !~ badre']),
     'missing_include': dict(lit=['include str "no_such_file_c17.txt"', 'include str "nodir_c17/none.txt"'], free=[]),
